@@ -1,5 +1,6 @@
 import Wx.Glob.C11Inst
 import Wx.Glob.GlobThm
+import Wx.Glob.GlobPath2
 /-! # C11 — Path filter verdicts follow the documented glob, ignore and extension rules
 
 > For the default path filterer an event without paths always passes and an event naming an explicitly watched file
@@ -91,6 +92,14 @@ theorem dir_contents_rule (neg : Bool) (x : List Char) (h : Clean x) :
     (∃ g, addLine ((if neg then ['!'] else []) ++ (x ++ ['/', '*', '*'])) = some (some g) ∧
       g.isWhitelist = neg ∧ ∀ s, mtch g.toks s = true ↔ ∃ rest, s = x ++ '/' :: rest) :=
   ⟨_, addLine_dir_contents neg x h, rfl, fun s => dir_contents_matches x s h⟩
+
+open Sp.Glob in
+/-- … and at the level of paths (`matched_path_or_any_parents`): an ignore line `*.ext` rejects exactly the paths that have a
+    component ending in `.ext` — the file `a/b.ext`, and everything below a directory `x.ext/` -/
+theorem extension_line_rejects_by_component (e orig root path : List Char) (he : Clean e) (cs : List (List Char)) (hne : cs ≠ [])
+    (hcs : ∀ x ∈ cs, Comp x) (hstrip : strip root path = join cs) (isDir : Bool) :
+    matchedOrParents root [extGlob orig e] path isDir ≠ .none ↔ ∃ c ∈ cs, ∃ stem, c = stem ++ '.' :: e :=
+  ext_ignores_iff e orig root path he cs hne hcs hstrip isDir
 
 /-- non-vacuity: `Clean` text exists, and the rules say what one expects on it (kernel-evaluated) -/
 example : Sp.Glob.Clean "target".toList ∧ Sp.Glob.Clean "rs".toList :=
